@@ -11,9 +11,13 @@
 package main
 
 import (
+	"bufio"
+	"bytes"
 	"encoding/json"
 	"fmt"
+	"io"
 	"os"
+	"os/exec"
 	"runtime"
 	"runtime/debug"
 	"strconv"
@@ -104,6 +108,8 @@ func main() {
 	}
 	switch os.Args[1] {
 	case "replay":
+		supervise()
+	case "worker":
 		// garbage collection happens only in the explicit gc steps: finalizers (Pool.Make) then run at known points
 		debug.SetGCPercent(-1)
 		// one P: a sync.Pool then returns what this goroutine (or a finalizer) put, and a collection is cheap
@@ -113,13 +119,14 @@ func main() {
 			if err := json.Unmarshal(raw, &in); err != nil {
 				panic(err)
 			}
-			rt.Emit(map[string]any{"begin": in.N})
-			rt.Flush()
 			rt.Emit(replay(in))
+			rt.Flush()
 			if in.N%64 == 0 {
 				collect() // the heap of the finished behaviours
 			}
 		})
+	case "probe":
+		probe()
 	case "record":
 		n, _ := strconv.Atoi(os.Args[2])
 		seed, _ := strconv.Atoi(os.Args[3])
@@ -129,6 +136,73 @@ func main() {
 		os.Exit(2)
 	}
 	rt.Flush()
+}
+
+// ------------------------------------------------------------------ supervisor
+
+// supervise feeds the behaviours one at a time to a child process (vh-adt worker).  A behaviour can end the process
+// (a fatal runtime error inside the library is not recoverable); the supervisor then reports
+// {"n":i,"crashed":true,"risk":step,"op":..,"stderr":tail} for that behaviour and continues with a new child.
+type child struct {
+	cmd *exec.Cmd
+	in  io.WriteCloser
+	out *bufio.Scanner
+	err *bytes.Buffer
+}
+
+func startChild() *child {
+	cmd := exec.Command(os.Args[0], "worker")
+	c := &child{cmd: cmd, err: &bytes.Buffer{}}
+	cmd.Stderr = c.err
+	c.in, _ = cmd.StdinPipe()
+	out, _ := cmd.StdoutPipe()
+	if err := cmd.Start(); err != nil {
+		panic(err)
+	}
+	c.out = bufio.NewScanner(out)
+	c.out.Buffer(make([]byte, 1<<20), 1<<28)
+	return c
+}
+
+func (c *child) stop() { c.in.Close(); _ = c.cmd.Wait() }
+
+func supervise() {
+	var c *child
+	rt.ReadLines(func(_ int, raw json.RawMessage) {
+		var hd struct {
+			N int `json:"n"`
+		}
+		_ = json.Unmarshal(raw, &hd)
+		rt.Emit(map[string]any{"begin": hd.N})
+		if c == nil {
+			c = startChild()
+		}
+		risk := map[string]any{}
+		_, werr := c.in.Write(append(raw, '\n'))
+		for werr == nil && c.out.Scan() {
+			var line map[string]any
+			if json.Unmarshal(c.out.Bytes(), &line) != nil {
+				continue
+			}
+			if _, isRisk := line["risk"]; isRisk {
+				risk = line
+				continue
+			}
+			rt.Emit(line)
+			return
+		}
+		// the worker died on this behaviour
+		c.stop()
+		tail := c.err.String()
+		if len(tail) > 6000 {
+			tail = tail[:3000] + "\n...\n" + tail[len(tail)-3000:]
+		}
+		rt.Emit(map[string]any{"n": hd.N, "ok": false, "crashed": true, "risk": risk["risk"], "op": risk["op"], "comp": risk["comp"], "stderr": tail})
+		c = nil
+	})
+	if c != nil {
+		c.stop()
+	}
 }
 
 func replay(in input) (res result) {
